@@ -296,7 +296,7 @@ package sam
 // tagToText (C03): NAME ':' type letter ':' value text, the value text being the byte itself (A), the decimal
 // rendering (i), FormatFloat 'e' (f), the string (Z) or lower-case hex (H); any other dynamic type panics.
 //@ func tagToText
-//@   props C03
+//@   props C03 C11
 //@   panics !(dynbyte(val) || dynint(val) || dynfloat(val) || dynstr(val) || dynbytes(val))
 //@   ensures isTagText(result, tag, val)
 //@   let n := len(tag)
@@ -315,7 +315,7 @@ package sam
 // tagsToText (C03): one text per entry of the map (isTagText, specs/25sam.spec), in some order (sorted by
 // sort.Strings: the order is not part of this contract).
 //@ func tagsToText
-//@   props C03 C07
+//@   props C03 C07 C11
 //@   witness texts
 //@   panics exists k string :: has(tags, k) && !(dynbyte(tags[k]) || dynint(tags[k]) || dynfloat(tags[k]) || dynstr(tags[k]) || dynbytes(tags[k]))
 //@   ensures len(result) == len(tags)
@@ -331,7 +331,7 @@ package sam
 //@     invariant forall k string :: seen(k) ==> (dynbyte(tags[k]) || dynint(tags[k]) || dynfloat(tags[k]) || dynstr(tags[k]) || dynbytes(tags[k]))
 
 //@ func SAM.Write
-//@   props C03 C07
+//@   props C03 C07 C11
 //@   witness texts from tagsToText
 //@   requires !w.failed
 //@   requires forall k string :: has(s.Tags, k) ==> (dynbyte(s.Tags[k]) || dynint(s.Tags[k]) || dynfloat(s.Tags[k]) || dynstr(s.Tags[k]) || dynbytes(s.Tags[k]))
